@@ -92,6 +92,20 @@ func runChild(bin string, env []string, args ...string) (stdout, stderr string, 
 	return so.String(), se.String(), exit, err
 }
 
+// firstPanicLine: the `panic: …` line of a dead child's stderr.
+func firstPanicLine(stderr string) string {
+	var ps []string
+	for _, l := range strings.Split(stderr, "\n") {
+		if t := strings.TrimSpace(l); strings.HasPrefix(t, "panic: ") && len(ps) < 3 {
+			ps = append(ps, t)
+		}
+	}
+	if len(ps) == 0 {
+		return "no panic line on stderr"
+	}
+	return clip(strings.Join(ps, " / "), 400)
+}
+
 func childLines(stdout, prefix string) []string {
 	var ls []string
 	for _, l := range strings.Split(stdout, "\n") {
@@ -156,6 +170,64 @@ func childExtra(ctx *core.Ctx) (int, string, []core.ExtraFailure) {
 					Payload: map[string]any{"env": env, "line": l, "rerun": strings.Join(env, " ") + " " + bin + " -mode deflimit"}})
 				break
 			}
+		}
+	}
+	// ---- the library's own handler goz.LogPanic(logger, deep): every depth, every logger shape.
+	// A handler that panics runs inside Recover's deferred function before the cleanups: the
+	// process dies (or slot and WaitGroup count leak). A user-supplied handler that panics is
+	// the caller's fault (outside the property); the library's own LogPanic must not.
+	nLog := 0
+	negNote := ""
+	for _, deep := range []int{0, 1, 5, 31, 32, 33, 64, 1000, -1, -5} {
+		so, se, exit, err := runChild(bin, nil, "-mode", "logpanic", "-deep", fmt.Sprint(deep))
+		ls := childLines(so, "CHILD logpanic ")
+		begins := childLines(so, "CHILD begin logpanic ")
+		rerun := fmt.Sprintf("%s -mode logpanic -deep %d", bin, deep)
+		last := ""
+		if len(begins) > 0 {
+			last = strings.TrimPrefix(begins[len(begins)-1], "CHILD begin logpanic ")
+		}
+		if deep < 0 {
+			// a NEGATIVE frame count is a misuse of LogPanic (like make([]T, -1)): recorded, not judged
+			if err != nil || exit != 0 {
+				negNote += fmt.Sprintf(" LogPanic(l, %d): the handler panics (%s), process exit code %d;", deep, firstPanicLine(se), exit)
+			} else {
+				negNote += fmt.Sprintf(" LogPanic(l, %d): survived;", deep)
+			}
+			continue
+		}
+		evals += len(ls)
+		nLog += len(ls)
+		switch {
+		case len(childLines(so, "CHILD stuck ")) > 0:
+			fails = append(fails, core.ExtraFailure{
+				Failure: core.Failure{Key: "leak", Desc: fmt.Sprintf("child process, handler = goz.LogPanic(logger, %d) [%s]: %s never returned — slot or WaitGroup count leaked (the handler panicked inside Recover's deferred function before the cleanups?)", deep, last, strings.Join(childLines(so, "CHILD stuck "), "; "))},
+				Payload: map[string]any{"deep": deep, "combination": last, "stdout_child_lines": childLines(so, "CHILD "), "stderr": clip(se, 6000), "rerun": rerun}})
+		case err != nil || exit != 0 || len(childLines(so, "CHILD done logpanic")) == 0:
+			fails = append(fails, core.ExtraFailure{
+				Failure: core.Failure{Key: "process-died", Desc: fmt.Sprintf("Limiter with the library's own handler goz.LogPanic(logger, %d) [%s]: a submitted function panicked and the child process died: exit code %d (%v), %s; the property says a panicking function does not terminate the process and its value reaches the configured handler. Completed combinations: %d", deep, last, exit, err, firstPanicLine(se), len(ls))},
+				Payload: map[string]any{"deep": deep, "combination": last, "exit_code": exit, "stderr": clip(se, 6000), "stdout_child_lines": childLines(so, "CHILD "), "rerun": rerun}})
+		default:
+			for _, l := range ls {
+				var d, limit, capn, inside, logged, panics int
+				var lname string
+				fmt.Sscanf(l, "CHILD logpanic deep=%d logger=%s limit=%d cap=%d inside=%d logged=%d panics=%d", &d, &lname, &limit, &capn, &inside, &logged, &panics)
+				if inside != capn {
+					fails = append(fails, core.ExtraFailure{
+						Failure: core.Failure{Key: "leak", Desc: fmt.Sprintf("child process, handler = goz.LogPanic(%s logger, %d), limit %d: after %d panicking functions only %d of %d functions could be inside at once (slot leaked)", lname, deep, limit, panics, inside, capn)},
+						Payload: map[string]any{"line": l, "rerun": rerun}})
+					break
+				}
+				if logged != panics {
+					fails = append(fails, core.ExtraFailure{
+						Failure: core.Failure{Key: "handler", Desc: fmt.Sprintf("child process, handler = goz.LogPanic(%s logger, %d), limit %d: %d functions panicked, the logger was called %d times (the panic value must reach the configured handler once per panic)", lname, deep, limit, panics, logged)},
+						Payload: map[string]any{"line": l, "rerun": rerun}})
+					break
+				}
+			}
+		}
+		if len(fails) > 0 {
+			break
 		}
 	}
 	// ---- endings that depend on the GODEBUG the process was started with
@@ -226,5 +298,5 @@ func childExtra(ctx *core.Ctx) (int, string, []core.ExtraFailure) {
 				Payload: map[string]any{"exit_code": exit, "stderr": clip(se, 6000), "env": env, "rerun": rerun}})
 		}
 	}
-	return evals, fmt.Sprintf("child process: %d endings rounds (panic(nil) / Goexit / panic aborted by Goexit / re-panics in deferred functions, in children started with GODEBUG unset and GODEBUG=panicnil=1) with all slots back; %d rounds without handler / with LogPanic (7 panic values incl. 5 whose Error()/String() panic) survived with all slots back; NewLimiter(<1) = 3 in processes started with GOMAXPROCS unset/1/2", nEndings, len(rounds)), fails
+	return evals, fmt.Sprintf("child process: %d combinations with the library's own handler goz.LogPanic(logger, deep) (deep 0, 1, 5, 31, 32, 33, 64, 1000 × 4 logger shapes × limits 1, 2; 5 panic values each) survived with all slots back and one log call per panic [recorded, not judged — negative depth is a misuse:%s]; %d endings rounds (panic(nil) / Goexit / panic aborted by Goexit / re-panics in deferred functions, in children started with GODEBUG unset and GODEBUG=panicnil=1) with all slots back; %d rounds without handler / with LogPanic (7 panic values incl. 5 whose Error()/String() panic) survived with all slots back; NewLimiter(<1) = 3 in processes started with GOMAXPROCS unset/1/2", nLog, negNote, nEndings, len(rounds)), fails
 }
